@@ -14,7 +14,9 @@ USE_Z3_STRINGS = True
 TRUSTED = ["os.path.realpath returns the fully resolved location; abspath/normpath/normcase/join/fspath are deterministic "
            "functions of their arguments (uninterpreted); os.stat(p).st_nlink is the link count; os.sep == '/' (POSIX)",
            "TOCTOU between check and open, and the kernel's own path resolution, are outside the contract"]
-NOT_DECIDED = ["_io.load gives the model directory as base directory for every spelling (needs os.path.dirname semantics): bounded stand-in",
+NOT_DECIDED = ["_io.load hands dirname(abspath(path)) to set_base_dir for the main graph and every function body: PROVED (target load, dirname/abspath "
+               "uninterpreted); that set_base_dir reaches every external tensor of a graph (attribute tensors, subgraphs) and what dirname/abspath "
+               "return for every spelling: bounded stand-in",
                "behaviour on real file systems with symlinks/hard links: bounded stand-in with canary files"]
 BOUNDED = [{"name": "C10 generated locations x base spellings x entry points on a real directory tree (bounded, not a proof)",
             "script": "bounded_paths.py", "args": []}]
@@ -92,3 +94,66 @@ def build(eng, tier):
         eng.add_target(Target(f"ExternalTensor.{meth}", mod=CORE, qual=f"ExternalTensor.{meth}", self_cls="ExternalTensor",
             params=dict(file=TRef("File"), dtype=TRef(None)), setup=setup, requires=[], ensures=[],
             raises_default=[], assert_mode="raise"))
+
+
+# ------------------------------------------------------------------------------------------------------------------
+# _io.load: every graph of the loaded model - the main graph and the body of every function - is given the model's
+# directory as base directory
+def add_load_target(eng):
+    """`g_base` is the ghost record of what set_base_dir(graph, d) did for a graph (its contract: it assigns d to every
+    external tensor reachable from the graph - initializers and attribute tensors, subgraphs included; that walk itself is
+    bounded).  On a normal return of load(path): the main graph and every function body have
+    g_base == os.path.dirname(os.path.abspath(path))."""
+    from pyvc.sem_stmt import LoopSpec
+    from pyvc.types import TMap, TSeq
+    IO = "onnx_ir._io"
+    ED = "onnx_ir.external_data"
+    eng.add_class(ClassDecl("Graph10", fields={"g_base": TOpt(STR)}))
+    eng.add_class(ClassDecl("Function10", fields={"graph": TRef("Graph10")}))
+    # model.functions is viewed as the sequence of its values (g_vals): load() only iterates over .values()
+    eng.add_class(ClassDecl("Functions10", fields={"g_vals": TSeq(TRef("Function10"))}))
+    eng.add_class(ClassDecl("Model10", fields={"graph": TRef("Graph10"), "functions": TRef("Functions10")}))
+    eng.method_models = dict(getattr(eng, "method_models", {}) or {})
+    eng.method_models[("Functions10", "values")] = FnDecl("Functions.values", "builtin",
+                                                          impl=lambda e, p, a, k, n: [(p, e.read_field(p, a[0], "g_vals"))])
+    eng.functions[f"{ED}.set_base_dir"] = FnDecl(f"{ED}.set_base_dir", "contract", ED, "set_base_dir",
+        requires=["nonnull(graph)"], ensures=["graph.g_base == base_dir",
+                                              "forall(lambda g=Graph10: implies(g is not graph, g.g_base == old(g.g_base)))"],
+        modifies=["Graph10.g_base"])
+
+    def m_load(e, p, args, kwargs, node):
+        return [(p, VOpaque("ModelProto")), (p.copy(), Exc("AnyException", f"L{node.lineno}:onnx.load"))]
+
+    def m_deser(e, p, args, kwargs, node):
+        m = e.symbolic_param(p, "loaded_model", TRef("Model10"))
+        from pyvc.types import NULL
+        p.assume(m.z != NULL)
+        p.assume(e.spec_bool("nonnull(loaded_model.graph) and nonnull(loaded_model.functions) and "
+                             "forall(lambda j=int: implies(0 <= j and j < len(loaded_model.functions.g_vals), nonnull(loaded_model.functions.g_vals[j]) and "
+                             "nonnull(loaded_model.functions.g_vals[j].graph)))", p, {"loaded_model": m}))
+        return [(p, m), (p.copy(), Exc("AnyException", f"L{node.lineno}:deserialize_model"))]
+
+    def setup(e, p, env):
+        e.lenient = False
+        e.lib_models["onnx.load"] = m_load
+        e.functions["onnx_ir.serde.deserialize_model"] = FnDecl("onnx_ir.serde.deserialize_model", "builtin", impl=m_deser)
+    dirname = eng.ufunc("os.path.dirname", [STR.sorts()[0]], STR.sorts()[0])
+    eng.spec_ufuncs["os_path_dirname"] = (dirname, STR)
+    BASE = "os_path_dirname(os_path_abspath(path))"
+    eng.add_target(Target("load", mod=IO, qual="load", setup=setup, params=dict(path=STR, format=TOpt(STR)), requires=[],
+        loops={"for function in model.functions.values()": LoopSpec(
+            invariant=[f"model.graph.g_base == {BASE}",
+                       f"forall(lambda j=int: implies(0 <= j and j < k, it[j].graph.g_base == {BASE}))",
+                       "forall(lambda j=int: implies(0 <= j and j < len(it), nonnull(it[j]) and nonnull(it[j].graph)))"],
+            modifies=["Graph10.g_base"])},
+        ensures=[f"result.graph.g_base == {BASE}",
+                 f"forall(lambda j=int: implies(0 <= j and j < len(result.functions.g_vals), result.functions.g_vals[j].graph.g_base == {BASE}))"],
+        raises_default=[], modifies=None, assert_mode="raise"))
+
+
+_build10 = build
+
+
+def build(eng, tier):
+    _build10(eng, tier)
+    add_load_target(eng)
